@@ -3,6 +3,12 @@
 // (c08_block.hpp: oracle_vanka), omega {1,1/2}, num_iter {1,2}, velocity unit filter {none, dof 0}; plus the life-cycle BFS.
 #include <c08_block.hpp>
 #include <kernel/solver/vanka.hpp>
+#include <kernel/lafem/power_diag_matrix.hpp>
+#include <kernel/lafem/power_full_matrix.hpp>
+#include <kernel/lafem/power_col_matrix.hpp>
+#include <kernel/lafem/power_row_matrix.hpp>
+#include <kernel/lafem/power_vector.hpp>
+#include <kernel/lafem/power_filter.hpp>
 
 using namespace c08b;
 
@@ -48,18 +54,162 @@ namespace
       run_subject(c, S->N, kname, where, make, orc, true, lc_depth);
     }
   }
+
+  // ---------------------------------------------------------------------------------------- component-wise (Power*) containers
+  /// SaddlePointMatrix<PowerDiagMatrix|PowerFullMatrix<CSR,2>, PowerColMatrix<CSR,2>, PowerRowMatrix<CSR,2>>: the velocity components are stored
+  /// in separate scalar matrices / vectors (the containers of the library's own vanka-test)
+  template<bool fullA>
+  struct PowerBox
+  {
+    typedef LAFEM::SparseMatrixCSR<double, Index> Sub;
+    typedef LAFEM::DenseVector<double, Index> DV;
+    typedef typename std::conditional<fullA, LAFEM::PowerFullMatrix<Sub, 2, 2>, LAFEM::PowerDiagMatrix<Sub, 2>>::type MatA;
+    typedef LAFEM::PowerColMatrix<Sub, 2> MatB;
+    typedef LAFEM::PowerRowMatrix<Sub, 2> MatD;
+    typedef LAFEM::SaddlePointMatrix<MatA, MatB, MatD> Mat;
+    typedef LAFEM::PowerVector<DV, 2> VecV;
+    typedef LAFEM::TupleVector<VecV, DV> Vec;
+    typedef LAFEM::PowerFilter<LAFEM::UnitFilter<double, Index>, 2> FilV;
+    typedef LAFEM::TupleFilter<FilV, LAFEM::NoneFilter<double, Index>> Fil;
+    const Saddle& S;
+    Mat mat; Fil filter;
+    std::shared_ptr<Solver::SolverBase<Vec>> prec;
+
+    static Sub sub(int rows, int cols, const std::vector<char>& pat) { return SaddleBox<1>::make_block<Sub>(rows, cols, pat); }
+    template<int r, int s2> void set_a(std::true_type) { mat.block_a().template at<r, s2>() = sub(S.nvb, S.nvb, S.pa); }
+    template<int r, int s2> void set_a(std::false_type) { if(r == s2) mat.block_a().template at<r, r>() = sub(S.nvb, S.nvb, S.pa); }
+    template<int r, int s2> Sub* get_a(std::true_type) { return &mat.block_a().template at<r, s2>(); }
+    template<int r, int s2> Sub* get_a(std::false_type) { return (r == s2) ? &mat.block_a().template at<r, r>() : nullptr; }
+
+    PowerBox(const Saddle& s, const std::vector<char>& fixed_vb) : S(s)
+    {
+      typedef std::integral_constant<bool, fullA> FA;
+      set_a<0, 0>(FA()); set_a<0, 1>(FA()); set_a<1, 0>(FA()); set_a<1, 1>(FA());
+      mat.block_b().template at<0, 0>() = sub(s.nvb, s.np, s.pb); mat.block_b().template at<1, 0>() = sub(s.nvb, s.np, s.pb);
+      mat.block_d().template at<0, 0>() = sub(s.np, s.nvb, s.pd); mat.block_d().template at<0, 1>() = sub(s.np, s.nvb, s.pd);
+      LAFEM::UnitFilter<double, Index> f0{Index(s.nvb)}, f1{Index(s.nvb)};
+      for(int b = s.nvb - 1; b >= 0; --b) if(fixed_vb[b]) { f0.add(Index(b), 0.0); f1.add(Index(b), 0.0); }
+      filter.template at<0>().template at<0>() = std::move(f0);
+      filter.template at<0>().template at<1>() = std::move(f1);
+      set_values(0);
+    }
+    /// dense index of (velocity block dof bi, component r) is bi*2 + r (as in Saddle); the storage is component-wise
+    void fill(Sub* m, int ver, bool rowv, int r, bool colv, int s2)
+    {
+      if(!m) return;
+      const int N = S.N, nv = S.nv;
+      for(Index i = 0; i < m->rows(); ++i) for(Index p = m->row_ptr()[i]; p < m->row_ptr()[i + 1]; ++p)
+      {
+        const int I = rowv ? int(i) * 2 + r : nv + int(i);
+        const int J = colv ? int(m->col_ind()[p]) * 2 + s2 : nv + int(m->col_ind()[p]);
+        m->val()[p] = double(S.K.k[ver][size_t(I) * N + J]);
+      }
+    }
+    void set_values(int ver)
+    {
+      typedef std::integral_constant<bool, fullA> FA;
+      fill(get_a<0, 0>(FA()), ver, true, 0, true, 0); fill(get_a<0, 1>(FA()), ver, true, 0, true, 1);
+      fill(get_a<1, 0>(FA()), ver, true, 1, true, 0); fill(get_a<1, 1>(FA()), ver, true, 1, true, 1);
+      fill(&mat.block_b().template at<0, 0>(), ver, true, 0, false, 0); fill(&mat.block_b().template at<1, 0>(), ver, true, 1, false, 0);
+      fill(&mat.block_d().template at<0, 0>(), ver, false, 0, true, 0); fill(&mat.block_d().template at<0, 1>(), ver, false, 0, true, 1);
+    }
+    std::vector<double> apply(const LVec& d, double prefill, Status& st, bool& unch)
+    {
+      Vec vin = mat.create_vector_l(), vout = mat.create_vector_l();
+      double* iv[2] = {vin.template at<0>().template at<0>().elements(), vin.template at<0>().template at<1>().elements()};
+      double* ov[2] = {vout.template at<0>().template at<0>().elements(), vout.template at<0>().template at<1>().elements()};
+      double* ip = vin.template at<1>().elements(); double* op = vout.template at<1>().elements();
+      for(int b = 0; b < S.nvb; ++b) for(int r = 0; r < 2; ++r) { iv[r][b] = double(d[b * 2 + r]); ov[r][b] = prefill; }
+      for(int i = 0; i < S.np; ++i) { ip[i] = double(d[S.nv + i]); op[i] = prefill; }
+      st = prec->apply(vout, vin);
+      unch = true;
+      for(int b = 0; b < S.nvb; ++b) for(int r = 0; r < 2; ++r) if(iv[r][b] != double(d[b * 2 + r])) unch = false;
+      for(int i = 0; i < S.np; ++i) if(ip[i] != double(d[S.nv + i])) unch = false;
+      std::vector<double> out(S.N);
+      for(int b = 0; b < S.nvb; ++b) for(int r = 0; r < 2; ++r) out[b * 2 + r] = ov[r][b];
+      for(int i = 0; i < S.np; ++i) out[S.nv + i] = op[i];
+      return out;
+    }
+  };
+
+  template<bool fullA>
+  void vanka_power_cases(verif::Ctx& c, int lc_depth)
+  {
+    typedef PowerBox<fullA> Box;
+    const std::vector<Layout> lays = layouts();
+    for(size_t li = 0; li < lays.size(); ++li)
+    for(int vt = 0; vt < 8; ++vt)
+    for(int io = 0; io < 2; ++io) for(int iters = 1; iters <= 2; ++iters) for(int fix = 0; fix < 2; ++fix)
+    {
+      if(!c.thorough && io == 1 && iters == 1) continue;
+      if(!c.want()) continue;
+      const Layout& L = lays[li];
+      const double omega = io ? 0.5 : 1.0;
+      auto S = std::make_shared<Saddle>(); S->build(L, 2, int(li % 2));
+      if(!fullA) // PowerDiagMatrix: no coupling between the velocity components in A
+        for(int ver = 0; ver < 4; ++ver) for(int I = 0; I < S->nv; ++I) for(int J = 0; J < S->nv; ++J) if((I % 2) != (J % 2)) S->K.k[ver][size_t(I) * S->N + J] = 0.0L;
+      std::vector<char> fixed_vb(L.nvb, 0); if(fix) fixed_vb[0] = 1;
+      const std::vector<char> fixed = fixed_scalar(*S, fixed_vb);
+      const int code = int(VT[vt]);
+      const bool block = (code & 0x010) != 0, full = (code & 0x001) != 0, multi = (code & 0x100) == 0;
+      const std::string kname = std::string("Vanka ") + VN[vt] + (fullA ? " PowerFull" : " PowerDiag");
+      char pb[120]; snprintf(pb, sizeof pb, " omega=%g num_iter=%d filter=%s", omega, iters, fix ? "Unit{0}" : "none");
+      const std::string where = kname + " layout=[" + L.name + "]" + pb;
+      c.desc([&]{ return where; });
+      c.nontrivial(verif::Hash().str("power").pod(fullA).pod(li).pod(vt).pod(io).pod(iters).pod(fix).get());
+      c.outcome(std::string("Vanka Power ") + VN[vt]);
+      Factory make = [=]() -> Live
+      {
+        auto box = std::make_shared<Box>(*S, fixed_vb);
+        box->prec = Solver::new_vanka(box->mat, box->filter, VT[vt], omega, Index(iters));
+        Live l; Box* b = box.get();
+        l.keep = std::shared_ptr<void>(new std::pair<std::shared_ptr<Saddle>, std::shared_ptr<Box>>(S, box), [](void* p){ delete static_cast<std::pair<std::shared_ptr<Saddle>, std::shared_ptr<Box>>*>(p); });
+        l.init_symbolic = [b]{ b->prec->init_symbolic(); }; l.init_numeric = [b]{ b->prec->init_numeric(); };
+        l.done_numeric = [b]{ b->prec->done_numeric(); }; l.done_symbolic = [b]{ b->prec->done_symbolic(); };
+        l.update = [b](int v){ b->set_values(v); };
+        l.apply = [b](const LVec& d, double pf, Status& st, bool& u){ return b->apply(d, pf, st, u); };
+        return l;
+      };
+      OracleFn orc = [=](int v, const LVec& d, LVec& out) { return oracle_vanka(*S, v, block, full, multi, omega, iters, fixed, d, out); };
+      run_subject(c, S->N, kname, where, make, orc, li < 3, lc_depth);
+    }
+  }
+
+  /// the documented exception of the diagonal variants: a vanishing main diagonal entry of A  =>  VankaFactorError; name()
+  void vanka_misc(verif::Ctx& c)
+  {
+    const std::vector<Layout> lays = layouts();
+    for(int vt = 0; vt < 8; ++vt)
+    {
+      if(!c.want()) continue;
+      c.desc([&]{ return std::string("Vanka ") + VN[vt] + " CSR: zero diagonal entry a_00"; });
+      c.nontrivial(verif::Hash().str("misc").pod(vt).get());
+      Saddle S; S.build(lays[1], 1, 0);
+      for(int ver = 0; ver < 4; ++ver) S.K.k[ver][0] = 0.0L;
+      std::vector<char> fx(S.nvb, 0);
+      SaddleBox<1> box(S, fx);
+      auto vk = Solver::new_vanka(box.mat, box.filter, VT[vt], 1.0, Index(1));
+      c08b::chk(c, std::string(vk->name()) == "Vanka", "block.vanka-name", [&]{ return std::string(vk->name()); });
+      vk->init_symbolic();
+      bool thrown = false;
+      try { vk->init_numeric(); } catch(const Solver::VankaFactorError&) { thrown = true; }
+      const bool diag = (int(VT[vt]) & 0x001) == 0;
+      c08b::chk(c, thrown == diag, std::string("block.vanka-factor-error ") + VN[vt], [&]{ return std::string(diag ? "no VankaFactorError for a zero diagonal entry" : "unexpected VankaFactorError of a full variant"); });
+      vk->done_symbolic();
+    }
+  }
 }
 
 int main(int argc, char** argv)
 {
   Runtime::ScopeGuard guard(argc, argv);
   verif::Spec spec; spec.property = "C08"; spec.harness = "c08_vanka";
-  spec.rule = "case = (velocity block size {1 (CSR), 2 (BCSR)}, element layout, A-diagonal variant, Vanka type (8), omega, num_iter, velocity unit filter); per case apply on all unit vectors + "
+  spec.rule = "case = (containers {SaddlePoint<CSR>, SaddlePoint<BCSR2>, SaddlePoint<PowerDiag|PowerFull<CSR,2>, PowerCol, PowerRow>}, element layout, A-diagonal variant, Vanka type (8), omega, num_iter, velocity unit filter); per case apply on all unit vectors + "
     "a dense vector vs the dense long double implementation of the documented local solves (blocks from the D*B pattern, local matrix [A B; D 0] or [diag(A) B; D 0], multiplicative = "
     "successive with relaxation omega, additive = summed and divided by the block count of each dof, correction filter after every iteration), output prefill, input unchanged, linearity; "
     "then the life-cycle BFS of c08_block.hpp";
   spec.bounds_quick = "7 layouts (2-6 velocity (block) dofs, 1-3 pressure dofs; overlapping elements, an element with 2 pressure dofs, scrambled element order), 2 diagonal variants, "
-    "8 Vanka types, omega {1,1/2}, num_iter {1,2}, filter {none, Unit{0}}; life-cycle depth 12";
+    "8 Vanka types, omega {1,1/2}, num_iter {1,2}, filter {none, Unit{0}}; the Power* containers with a reduced parameter grid and the life cycle on 3 layouts; VankaFactorError for a zero diagonal entry; life-cycle depth 12";
   spec.bounds_thorough = "additionally the all-negative A-diagonal variant; life-cycle depth 14";
   spec.assumptions = {"oracle: dense long double algebra (c08_common.hpp, c08_block.hpp)", "every velocity dof is coupled to a pressure dof (otherwise the additive variants divide by zero)",
     "comparison tolerance 1e-10 relative to max(1,|ref|); cases with (nearly) singular reference local systems are excluded and counted"};
@@ -69,5 +219,8 @@ int main(int argc, char** argv)
     const int lc_depth = c.thorough ? 14 : 12;
     vanka_cases<1>(c, lc_depth);
     vanka_cases<2>(c, lc_depth);
+    vanka_power_cases<false>(c, lc_depth);
+    vanka_power_cases<true>(c, lc_depth);
+    vanka_misc(c);
   });
 }
